@@ -110,8 +110,27 @@ def midMro (s : St) : List (Nat × List Nat) :=
       | some l => l
       | none => Mro.allbasesFuel (initialBases s) (fun _ => false) fuel e.1)
 
+/-- `None in cls.baseobjects` while the modules are visited: a base of the class is not resolved (yet) -/
+def hasUnresolvedBase (s : St) (c : Nat) : Bool :=
+  match dget s.cinfo c with
+  | some ci => ci.objs.any Option.isNone
+  | none => false
+
+/-- a list up to and including its first element that satisfies `q` -/
+def cutAfter (q : Nat → Bool) : List Nat → List Nat
+  | [] => []
+  | b :: rest => if q b then [b] else b :: cutAfter q rest
+
+/-- what `expandName`'s walk over `obj.mro()` sees while `_mro` is not set (since fix d15323d): after a class that has an
+unresolved base the walk stops (`if base._mro is None and None in base.baseobjects: break`, after the class's own names) -/
+def midWalk (s : St) : List (Nat × List Nat) :=
+  (midMro s).map fun e => (e.1, cutAfter (hasUnresolvedBase s) e.2)
+
 /-- the registry as the name-resolution functions see it during the AST pass -/
-def envOf (s : St) : Names.Env := ⟨s.reg, midMro s⟩
+def envOf (s : St) : Names.Env := ⟨s.reg, midWalk s⟩
+
+/-- the same for `Class.find` (`_maybeAttribute`), which walks the whole provisional `mro()` -/
+def envFind (s : St) : Names.Env := ⟨s.reg, midMro s⟩
 
 def setAlias (s : St) (ctx : Nat) (k : Name) (v : Path) : St :=
   { s with reg := modifyObj s.reg ctx (fun o => { o with aliases := dset o.aliases k v }) }
@@ -283,7 +302,7 @@ def starOne (pm : St → Nat → St) (ctx t : Nat) (exports : List Name) (s : St
 
 /-- `_maybeAttribute(cls, name)` -/
 def maybeAttribute (s : St) (cls : Nat) (name : Name) : Bool :=
-  match Names.classFind (envOf s) cls name with
+  match Names.classFind (envFind s) cls name with
   | none => true
   | some o => clsOf s.reg o == some .attribute
 
@@ -427,11 +446,10 @@ def run (proj : Project) (order : List Nat) : St := process proj order { initSt 
 expanded to where the class is defined — with `system.find_object` since 63417ae, which follows the
 alias a re-export move left; `LookupError` (`IndexError` included) gives `None` — then by resolving
 the written name in `cls.parent` -/
-def finalBases (s : St) (c : Nat) : List Nat :=
+def finalBasesIn (e : Names.Env) (s : St) (c : Nat) : List Nat :=
   match dget s.cinfo c with
   | none => []
   | some ci =>
-    let e := envOf s
     let cls? (o : Option Nat) : Option Nat := match o with
       | some i => if isClassObj s.reg i then some i else none
       | none => none
@@ -445,13 +463,29 @@ def finalBases (s : St) (c : Nat) : List Nat :=
         | some b => some b
         | none => cls? (Names.resolveName e ci.scope x.1.1)
 
+/-- first round of post-processing: the linearisations over the bases as they can be resolved with the visit-time walk -/
+def finalMro1 (s : St) : List (Nat × List Nat) :=
+  let fuel := s.reg.objs.length + 1
+  let e0 := envOf s
+  s.cinfo.map fun e =>
+    (e.1, match Mro.mroFuel (finalBasesIn e0 s) fuel e.1 with
+      | some l => l
+      | none => Mro.allbasesFuel (finalBasesIn e0 s) (fun _ => false) fuel e.1)
+
+/-- the final bases.  `defaultPostProcess` runs `_init_mro` class by class in registration order: a base name that goes
+THROUGH another class (`class E(D.X)`) is looked up when `D` — registered before `E` — has its final linearisation already,
+while a class that comes later is still walked provisionally (since d15323d: up to its first unresolved base).  Modelled in
+two rounds: the names that were unresolved at visit time are looked up with the linearisations of the first round. -/
+def finalBases (s : St) (c : Nat) : List Nat := finalBasesIn ⟨s.reg, finalMro1 s⟩ s c
+
 /-- `Class._init_mro`: C3 over the resolved bases, or `allbases(True)` when it fails -/
 def finalMro (s : St) : List (Nat × List Nat) :=
   let fuel := s.reg.objs.length + 1
+  let e1 : Names.Env := ⟨s.reg, finalMro1 s⟩          -- computed once (= `finalBases s`)
   s.cinfo.map fun e =>
-    (e.1, match Mro.mroFuel (finalBases s) fuel e.1 with
+    (e.1, match Mro.mroFuel (finalBasesIn e1 s) fuel e.1 with
       | some l => l
-      | none => Mro.allbasesFuel (finalBases s) (fun _ => false) fuel e.1)
+      | none => Mro.allbasesFuel (finalBasesIn e1 s) (fun _ => false) fuel e.1)
 
 def finalEnv (s : St) : Names.Env := ⟨s.reg, finalMro s⟩
 
